@@ -272,7 +272,7 @@ var opWeights = []struct {
 	{"set-ref", 10}, {"cas-ref", 10}, {"rm-ref", 6}, {"get-ref", 5}, {"iter-refs", 3}, {"count-loose", 1}, {"pack-refs", 3},
 	{"set-index", 3}, {"get-index", 2}, {"set-config", 3}, {"get-config", 2}, {"set-shallow", 3}, {"get-shallow", 2},
 	{"reflog-append", 3}, {"reflog-get", 2}, {"reflog-delete", 2}, {"mod", 6}, {"reopen", 3},
-	{"index-alias", 1}, {"config-alias", 1},
+	{"index-alias", 1}, {"config-alias", 1}, {"del-pack", 3},
 }
 
 // muteable lists the signature prefixes Gen may mute (the triaged ones).
@@ -340,6 +340,19 @@ func genPlan(r *core.Rand, tier string) any {
 			}
 		}
 		p.Ops = append(p.Ops, op)
+		if k == "pack" && r.Chance(1, 3) {
+			// the same pack once more (byte-identical), and sometimes the
+			// same objects loose, so that deleting the pack is harmless
+			p.Ops = append(p.Ops, op)
+			if r.Bool() {
+				for b := 0; b < 10; b++ {
+					if op.A&(1<<b) != 0 {
+						p.Ops = append(p.Ops, Op{K: "set-obj", A: b})
+					}
+				}
+				p.Ops = append(p.Ops, Op{K: "del-pack", A: r.Intn(8)})
+			}
+		}
 	}
 	if r.Chance(4, 5) {
 		for _, m := range muteable {
@@ -365,10 +378,17 @@ type repoM struct {
 	everSet   map[string]bool // reference names that were ever stored
 	everLog   map[string]bool // reference names that ever had a reflog
 	anyPacked bool
+	loose     map[int]bool // objects stored one by one (loose files on the filesystem backends)
+	packs     []packM      // packs written so far, by pack name (identical packs collapse into one)
+}
+
+type packM struct {
+	name string
+	objs []int
 }
 
 func newRepoM() *repoM {
-	return &repoM{refs: map[string]string{}, objs: map[int]bool{}, reflog: map[string][]string{}, everSet: map[string]bool{}, everLog: map[string]bool{}}
+	return &repoM{loose: map[int]bool{}, refs: map[string]string{}, objs: map[int]bool{}, reflog: map[string][]string{}, everSet: map[string]bool{}, everLog: map[string]bool{}}
 }
 
 func refVal(r *plumbing.Reference) string {
@@ -987,7 +1007,7 @@ func (r *run) modelObjList(m *repoM, t plumbing.ObjectType) []string {
 func (r *run) readback(opName string) {
 	full := false
 	switch opName {
-	case "open", "reopen", "reopened", "set-obj", "raw-obj", "pack", "mod-set-obj":
+	case "open", "reopen", "reopened", "set-obj", "raw-obj", "pack", "mod-set-obj", "del-pack":
 		full = true
 	}
 	var ds []div
@@ -1164,7 +1184,58 @@ func (r *run) step(i int, op Op) string {
 			r.probe("object-stored-again")
 		}
 		m.objs[k] = true
+		m.loose[k] = true
 		return op.K
+	case "del-pack":
+		// Delete a pack that is redundant (each of its objects is also stored
+		// loose or in another pack): nothing changes in the abstract
+		// repository, so every lookup must answer as before.
+		var cand []int
+		for pi, pk := range m.packs {
+			redundant := true
+			for _, k := range pk.objs {
+				elsewhere := m.loose[k]
+				for pj, other := range m.packs {
+					if pj != pi {
+						for _, ok2 := range other.objs {
+							if ok2 == k {
+								elsewhere = true
+							}
+						}
+					}
+				}
+				if !elsewhere {
+					redundant = false
+				}
+			}
+			if redundant {
+				cand = append(cand, pi)
+			}
+		}
+		if len(cand) == 0 {
+			return ""
+		}
+		pi := cand[mod(op.A, len(cand))]
+		pk := m.packs[pi]
+		r.probe("redundant-pack-deleted")
+		r.perform(i, "del-pack", fmt.Sprintf("%s %v", pk.name[:8], pk.objs), want{kinds: ok()}, func(b *backend) res {
+			pos, isPacked := b.st.(storer.PackedObjectStorer)
+			if !isPacked {
+				return res{kind: "ok"}
+			}
+			have, err := pos.ObjectPacks()
+			if err != nil {
+				return res{kind: errKind(err)}
+			}
+			for _, h := range have {
+				if h.String() == pk.name {
+					return res{kind: errKind(pos.DeleteOldObjectPackAndIndex(h, time.Time{}))}
+				}
+			}
+			return res{kind: "ok"}
+		})
+		m.packs = append(m.packs[:pi:pi], m.packs[pi+1:]...)
+		return "del-pack"
 	case "pack":
 		var objs []int
 		for k := 0; k < nObjs; k++ {
@@ -1212,6 +1283,26 @@ func (r *run) step(i int, op Op) string {
 				r.probe("object-both-loose-and-packed-or-in-two-packs")
 			}
 			m.objs[k] = true
+		}
+		{
+			// the pack's name is its trailing checksum
+			hs := 20
+			if r.p.SHA256 {
+				hs = 32
+			}
+			if len(data) > hs {
+				name := fmt.Sprintf("%x", data[len(data)-hs:])
+				known := false
+				for _, pk := range m.packs {
+					if pk.name == name {
+						known = true
+						r.probe("identical-pack-written-again")
+					}
+				}
+				if !known {
+					m.packs = append(m.packs, packM{name: name, objs: objs})
+				}
+			}
 		}
 		return "pack"
 	case "get-obj":
